@@ -45,6 +45,11 @@ CHECKS = {
    text="At every state visited by the (reduced-bound) explorations the emitted image is decoded by the harness's own spec decoder (never the library's deserialize) and compared field by field with the in-memory state read through the hooks and with the reference model: HLL (preamble, flags, coupons, nibble/6-bit/byte registers, cur_min, aux area by compact flag, hip/kxq, size formulas), compact Theta v3/v4 (preLongs by case, flags, seed hash, theta, entries, MSB-first delta bit stream, sizes), CPC (preInts by flag combination, field order incl. both HIP positions, stream lengths, flags vs flavor, numSv, kxp/hip).",
    note="Trusted base: my transcription of the Java/C++ layouts (DESIGN Appendix A). CPC compressed payload: see evidence notes for whether the independent decompressor is active.",
    design="3/C12"),
+ "C13": dict(
+   technique="finite-domain enumeration of format variants x abstract states through an independent spec encoder, real deserialize + state/behaviour comparison",
+   text="The complete product of the format variants Java/C++ writers use and a family of small abstract states is encoded by the harness's own encoder and fed to the real readers (~54k images quick): HLL lg_k {4,5,8,10} x 3 types x {list of every length 0..7, set of every size 8..24/25..48, arrays: 5 base patterns x 16 exception subsets x 4 exception values} x compact/updatable coupon tables and aux tables (two table sizes) x compact flag in array mode x out-of-order flag x extra flag bits; Theta serial versions 1-4 x {empty, single, exact, estimating} x ordered/unordered x single-item flag x seeds (+ wrong seed rejected); Bloom exact/dirty counts; Count-Min u64/i64 readers; Frequent Items i64/String x preLongs high bits x empty-flag variants; CPC uncompressed flag rejected. Oracle: Ok, hook dump / accessors equal the encoded state, estimates as the state requires (HIP value in order, composite when out of order), further updates and unions behave as the registers require, re-serialization decodes to the same state.",
+   note="Encoders are my transcription of the Java/C++ writers (DESIGN Appendix A). t-digest float/double/reference encodings are attached with the t-digest codec (see evidence counters).",
+   design="3/C13"),
 }
 NOT_BUILT = "check not built yet in this session (planned in DESIGN.md section 3); not claimed until it exists"
 def main():
